@@ -111,7 +111,7 @@ func renderJSON(v jv, l npmLayout) []byte {
 }
 
 // npmPathChars are the characters that gjson / sjson give a meaning to inside a path.
-const npmPathChars = ".*?|#\\"
+const npmPathChars = ".*?|\\"
 
 func npmKeyHasPathChars(k string) bool { return strings.ContainsAny(k, npmPathChars) }
 
